@@ -3,6 +3,7 @@ package handlers
 import (
 	"context"
 	"strings"
+	"sync/atomic"
 
 	"github.com/mimecast/dtail/internal"
 	"github.com/mimecast/dtail/internal/config"
@@ -85,6 +86,11 @@ func (h *ServerHandler) handleUserCommand(ctx context.Context, ltx lcontext.LCon
 			dlog.Server.Error(h.user, err)
 			commandFinished()
 			return
+		}
+		// The aggregation isn't done for as long as other commands of this
+		// session (reading the files) are still running.
+		aggregate.MoreLinesExpected = func() bool {
+			return atomic.LoadInt32(&h.activeCommands) > 1
 		}
 		h.aggregate = aggregate
 		go func() {
